@@ -387,6 +387,12 @@ def run(ctx):
     # IndexError (the kind interpreter does not model the stack depth; the typestate pairing analysis does)
     from . import scope
     scope.rule_pairing(ctx, "R3.5")
+    # R3.8: the fourth entry point, module-level jsonschema.validate, on schema-shaped values: class selection, check_schema, construction
+    # and best_match (whose ranking compares keys computed from the errors) raise nothing of their own
+    from .c04 import rule_validate_total
+    rule_validate_total(ctx, "R3.8", schemas_only=True)
+    # R3.9: "RefResolutionError when a reference cannot be resolved" -- and for no other reason
+    scope.rule_who_raises_ref_error(ctx, "R3.9")
     un = set()
     for I in ctx.extra.get("_interp_cache", {}).values():
         un |= set(I.unmodelled)
